@@ -37,9 +37,8 @@ def classOf (T : List Triple) (H : List Char) : String :=
   else if T.any (fun t => hostMatch t.host H == some .any) then "any"
   else "nohost"
 
-def run (op impl : String) : Ans :=
-  let f := op.splitOn ";"
-  match kv f "r", kv f "h", kv f "p" with
+def runOne (f : List String) (hO pO : Option String) (impl : String) : Ans :=
+  match kv f "r", hO, pO with
   | some r, some h, some p =>
     match parseRules r with
     | none => { model := "bad-op", verdict := "skip" }
@@ -85,5 +84,28 @@ def run (op impl : String) : Ans :=
                   ++ (if T.length ≥ 2 && cls != "nohost" then ["nt"] else [])
                   ++ (if others ≥ 2 then ["multi-cand"] else []) ++ shapes }
   | _, _, _ => { model := "bad-op", verdict := "skip" }
+
+/-- batch ops `q=<host>|<path>~<host>|<path>…`: one tree, many lookups; the harness runs the batch twice (the second
+    time in reverse order) and keeps all results until the end — the answers must not depend on earlier lookups -/
+def run (op impl : String) : Ans :=
+  let f := op.splitOn ";"
+  match kv f "q" with
+  | none => runOne f (kv f "h") (kv f "p") impl
+  | some q =>
+    if impl == "err:load" || impl.endsWith "~unstable" then
+      let a := runOne f (some "a") (some "/") impl
+      if impl.endsWith "~unstable" then { model := a.model, verdict := "FAIL:lookup-depends-on-history", tags := ["batch"] }
+      else { a with tags := a.tags ++ ["batch"] }
+    else
+      let probes := q.splitOn "~"
+      let impls := impl.splitOn "~"
+      let answers := (probes.zip (impls ++ List.replicate probes.length "")).map fun (pr, im) =>
+        match pr.splitOn "|" with
+        | [h, p] => runOne f (some h) (some p) im
+        | _ => { model := "bad-op", verdict := "skip" }
+      let bad := answers.find? (fun a => a.verdict.startsWith "FAIL")
+      { model := "~".intercalate (answers.map (·.model))
+        verdict := if impls.length != probes.length then "FAIL:batch-length" else match bad with | some a => a.verdict | none => "ok"
+        tags := ["batch"] ++ ((answers.map (·.tags)).flatten.eraseDups) }
 
 end BfeVerif.C11
